@@ -42,6 +42,33 @@ def _mk_solver(kind):
     if kind == 'nlsat': return z3.Then('simplify', 'purify-arith', 'qfnra-nlsat').solver()
     return z3.Tactic(kind).solver()
 
+def _ackermannize(fs):
+    """replace every application of an uninterpreted function by a fresh constant and add all pairwise congruence constraints: equisatisfiable, and pure (nonlinear) real arithmetic afterwards"""
+    cache = {}; apps = {}
+    def go(t):
+        k = t.get_id()
+        if k in cache: return cache[k]
+        old = t.children(); ch = [go(c) for c in old]; d = t.decl()
+        if z3.is_app(t) and d.kind() == z3.Z3_OP_UNINTERPRETED and t.num_args() > 0:
+            r = z3.FreshConst(t.sort(), 'ack'); apps.setdefault(d.name(), []).append((ch, r))
+        elif ch and any(not a.eq(b) for a, b in zip(ch, old)): r = d(*ch)
+        else: r = t
+        cache[k] = r; return r
+    out = [go(f) for f in fs]
+    for L in apps.values():
+        for i in range(len(L)):
+            for j in range(i + 1, len(L)):
+                out.append(z3.Implies(z3.And(*[a == b for a, b in zip(L[i][0], L[j][0])]), L[i][1] == L[j][1]))
+    return out
+
+def _check(so, tmo_ms):
+    """solver call with a second line of defence: if the solver's own timeout is not honoured, interrupt the context a little later (the per-job wall-time cap of run_jobs is the third)"""
+    import threading
+    tm = threading.Timer(tmo_ms / 1000.0 * 1.2 + 3.0, lambda: so.ctx.interrupt()); tm.daemon = True; tm.start()
+    try: return so.check()
+    except z3.Z3Exception: return z3.unknown
+    finally: tm.cancel()
+
 def prove(name, assumptions, claim, timeout_ms=20000, model_vars=None, key=None, detail='', tactic=None, sample=False):
     """discharged iff assumptions AND NOT claim is unsat.  sat -> candidate with a model of model_vars.  unknown -> undecided.
        tactic='nra': portfolio (default solver for a fifth of the budget, then simplify+purify-arith+nlsat) for polynomial/rational identities"""
@@ -54,14 +81,55 @@ def prove(name, assumptions, claim, timeout_ms=20000, model_vars=None, key=None,
                 return ob(name, 'discharged', solver_s=time.time() - t0, key=key, detail=(detail + ' polynomial identity by expansion').strip(), solver='z3/simplify-som',
                           sample={'obligation': name, 'result': 'lhs - rhs expands to 0', 'solver': 'z3/simplify-som'} if sample else None)
         except z3.Z3Exception: pass
-    plan = [('default', timeout_ms)] if tactic is None else [('nlsat', timeout_ms), ('default', max(2000, timeout_ms // 5))] if tactic == 'nra' else [(tactic, timeout_ms)]
+    plan = _plan(tactic, timeout_ms)
+    if os.environ.get('VERIF_PROVE_INLINE'): return _prove_solver(plan, name, assumptions, claim, model_vars, key, detail, sample)
+    # the solver runs in a forked child: a query whose own timeout is not honoured (seen with nlsat on seeded trees) is killed instead of stalling the job
+    import pickle, select
+    budget = sum(t for _, t in plan) / 1000.0 * 1.25 + 10.0; t0 = time.time()
+    try: rfd, wfd = os.pipe(); cpid = os.fork()
+    except OSError: return _prove_solver(plan, name, assumptions, claim, model_vars, key, detail, sample)
+    if cpid == 0:
+        try:
+            os.close(rfd)
+            try:
+                import ctypes, signal; ctypes.CDLL(None).prctl(1, signal.SIGKILL)
+            except Exception: pass
+            data = pickle.dumps(_prove_solver(plan, name, assumptions, claim, model_vars, key, detail, sample))
+            with os.fdopen(wfd, 'wb') as f: f.write(data)
+        except BaseException: pass
+        finally: os._exit(0)
+    os.close(wfd); buf = b''; killed = False
+    while True:
+        left = budget - (time.time() - t0)
+        rl = select.select([rfd], [], [], max(0.0, left))[0] if left > 0 else []
+        if not rl:
+            try: os.kill(cpid, 9)
+            except OSError: pass
+            killed = True; break
+        chunk = os.read(rfd, 1 << 16)
+        if not chunk: break
+        buf += chunk
+    os.close(rfd)
+    try: os.waitpid(cpid, 0)
+    except OSError: pass
+    if buf and not killed:
+        try: return pickle.loads(buf)
+        except Exception: pass
+    return ob(name, 'undecided', solver_s=time.time() - t0, key=key, detail=(detail + (' solver process killed after %.0f s: its timeout was not honoured' % budget if killed else ' solver process died without a result')).strip(), solver='z3/' + plan[-1][0])
+
+def _plan(tactic, timeout_ms):
+    return [('default', timeout_ms)] if tactic is None else [('nlsat', timeout_ms), ('default', max(2000, timeout_ms // 5))] if tactic == 'nra' else [('ack-nlsat', timeout_ms), ('default', max(2000, timeout_ms // 5))] if tactic == 'nra-uf' else [(tactic, timeout_ms)]
+
+def _prove_solver(plan, name, assumptions, claim, model_vars, key, detail, sample):
     dt = 0.0; r = z3.unknown; so = None; used = ''
     for kind, tmo in plan:
-        so = _mk_solver(kind); so.set('timeout', int(tmo))
-        so.add(*assumptions); so.add(z3.Not(claim))
+        if kind == 'ack-nlsat':
+            so = _mk_solver('nlsat'); so.set('timeout', int(tmo)); so.add(*_ackermannize(list(assumptions) + [z3.Not(claim)]))
+        else:
+            so = _mk_solver(kind); so.set('timeout', int(tmo))
+            so.add(*assumptions); so.add(z3.Not(claim))
         t0 = time.time()
-        try: r = so.check()
-        except z3.Z3Exception: r = z3.unknown
+        r = _check(so, int(tmo))
         dt += time.time() - t0; used = kind
         if r != z3.unknown: break
     smp = None
@@ -118,6 +186,9 @@ def _run_job(job):
         return {'obs': [ob('%s%r' % (fn.__name__, args), 'broken', detail='exception: ' + traceback.format_exc()[-1500:])], 'wall': time.time() - t0, 'rss_kb': 0, 'job': fn.__name__}
 
 def _job_child(job, conn):
+    try:
+        import ctypes, signal; ctypes.CDLL(None).prctl(1, signal.SIGKILL)      # PR_SET_PDEATHSIG: never outlive the driver
+    except Exception: pass
     try: conn.send(_run_job(job))
     finally: conn.close()
 
@@ -188,7 +259,7 @@ def main(argv):
     if a.only: jobs = [j for j in jobs if a.only in (j[0].__name__ + repr(j[1]))]
     t1 = time.time()
     if ctx.workers > 1 and len(jobs) > 1:
-        results = run_jobs(jobs, min(ctx.workers, len(jobs)), int(os.environ.get('VERIF_JOB_CAP_S', '1500' if tier == 'quick' else '7200')))
+        results = run_jobs(jobs, min(ctx.workers, len(jobs)), int(os.environ.get('VERIF_JOB_CAP_S', '900' if tier == 'quick' else '7200')))
     else:
         results = [_run_job(j) for j in jobs]
     obs = []; jobstats = []
